@@ -15,6 +15,7 @@ hypotheses; where a program has more than one loop pass the hypotheses are check
 import ZnVerif.Model.Interp
 import ZnVerif.Proofs.ControlFlow
 import ZnVerif.Proofs.ControlFlowSpec
+import ZnVerif.Proofs.LoopSignalsStmt
 set_option linter.unusedSectionVars false
 
 namespace ZnVerif.Properties.C02
@@ -1030,5 +1031,118 @@ theorem spec_while_retests (n ln k : Nat) (c : Expr) (body : Option (List Stmt))
 
 example : ∃ s2, Spec.execS 6 (.while 0 cFalse (some [.nil])) sp0 = (.ok .null, s2) :=
   ⟨_, (spec_while_retests 5 0 0 cFalse (some [.nil]) sp0 _ _ (.zero _) (by decide)).2 rfl⟩
+
+/-! ## 7. Loop signals stay inside the body and the loop they belong to
+
+(after the repairs 8b872eb / 0bac3b4 of `evalExecBlock`: `loopSignalToException`).  `Err.isLoopSignal e` = `e` is
+`.sigBreak` or `.sigContinue`; `FreeSig e st` (Proofs/LoopSignalsStmt) = a 结束循环 (`e = .sigBreak`) resp. 继续循环
+(`e = .sigContinue`) stands lexically in `st` outside every loop of `st`: `st` is that statement, or a 如果/再如/否则
+statement one of whose blocks contains such a statement; `BlockFreeSig e b` = some statement of block `b` has it. -/
+
+open ZnVerif.Proofs.LoopSignals
+
+/-- `loop_signal_never_leaves_body`.  Whatever a method / constructor / program body does — 结束循环 or 继续循环
+outside any loop of the body, in a 如果, in a 拦截 handler block, … — the outcome of `evalExecBlock` is never a
+loop signal: every fuel, every body, every handler list, every state. -/
+theorem loop_signal_never_leaves_body (n : Nat) (blk : Option ExecBlock) (params : List Addr) (s s' : VM ν) (e : Err)
+    (h : evalExecBlock n blk params s = (.err e, s')) : e ≠ .sigBreak ∧ e ≠ .sigContinue := by
+  have := (NoSig.evalExecBlock n blk params).out s e s' h
+  constructor <;> rintro rfl <;> cases this
+
+/-- a 结束循环 at the top of a body becomes an exception value returned as an error (here: cell 7), not a signal -/
+example : errIs (evalExecBlock 5 (some (.mk [] (some [.break 0, .nil]) [])) [] (programStart (initVM (ν := Int) ()))).1
+    (.excErr 7) = true := K
+/-- … and so does a 继续循环 executed by the 拦截 handler block of the body (the case 0bac3b4 repaired) -/
+example : errIs (evalExecBlock 8 (some handlerContinues) [] (programStart (initVM (ν := Int) ()))).1 (.excErr 10) = true := K
+example : ∃ e s', evalExecBlock 8 (some handlerContinues) [] (programStart (initVM (ν := Int) ())) = (.err e, s') ∧
+    e ≠ .sigBreak ∧ e ≠ .sigContinue := by
+  have h := run_err (evalExecBlock 8 (some handlerContinues) []) (programStart (initVM (ν := Int) ())) (.excErr 10) K
+  exact ⟨_, _, h, loop_signal_never_leaves_body _ _ _ _ _ _ h⟩
+
+/-- no expression ever yields a loop signal: not a call `（f：…）`, not a method call, not 新建 (the constructor body),
+not the arguments, not an l-value — whatever bodies they run (`loop_signal_never_leaves_body`) and whatever built-in
+they reach. -/
+theorem expression_never_yields_loop_signal (n : Nat) (ex : Expr) (s s' : VM ν) (e : Err)
+    (h : evalExpr n ex s = (.err e, s')) : e ≠ .sigBreak ∧ e ≠ .sigContinue := by
+  have := (NoSig.evalExpr n ex).out s e s' h
+  constructor <;> rintro rfl <;> cases this
+
+/-- `（f）` with no `f` defined: error 42, which the theorem says is not a loop signal -/
+example : ∃ e s', evalExpr 4 (.call 0 (some ⟨0, "f"⟩) [] none) vm0 = (.err e, s') ∧ e ≠ .sigBreak ∧ e ≠ .sigContinue := by
+  have h := run_err (evalExpr 4 (.call 0 (some ⟨0, "f"⟩) [] none)) vm0 (.rt 42) K
+  exact ⟨_, _, h, expression_never_yields_loop_signal _ _ _ _ _ h⟩
+
+/-- a loop statement never ends with a loop signal: the signals of its body are consumed by *it* (结束循环 / 继续循环
+act on the innermost loop, none passes through to an outer one), everything else the body can raise is not one. -/
+theorem loop_statement_never_signals (n ln : Nat) (c : Expr) (names : List Ident) (body : Option (List Stmt))
+    (s s' : VM ν) (e : Err) :
+    (evalStmt (n+1) (.while ln c body) s = (.err e, s') → e ≠ .sigBreak ∧ e ≠ .sigContinue) ∧
+    (evalStmt (n+1) (.iterate ln c names body) s = (.err e, s') → e ≠ .sigBreak ∧ e ≠ .sigContinue) := by
+  constructor <;> intro h
+  · have := (NoSig.whileStmt n ln c body).out s e s' h
+    constructor <;> rintro rfl <;> cases this
+  · have := (NoSig.iterateStmt n ln c names body).out s e s' h
+    constructor <;> rintro rfl <;> cases this
+
+example : ∃ e s', evalStmt 7 (.while 0 (.str 0 "x") (some [.break 0])) vm0 = (.err e, s') ∧ e ≠ .sigBreak ∧ e ≠ .sigContinue := by
+  have h := run_err (evalStmt 7 (.while 0 (.str 0 "x") (some [.break 0]))) vm0 (.rt 80) K
+  exact ⟨_, _, h, (loop_statement_never_signals 6 0 _ [] _ _ _ _).1 h⟩
+
+/-- `loop_signal_is_lexical`.  If a statement (a block) ends with the signal `e`, then a 结束循环 / 继续循环 stands
+lexically in it, outside every loop of it and not inside any method it calls. -/
+theorem loop_signal_is_lexical (n : Nat) (s s' : VM ν) (e : Err) (he : Err.isLoopSignal e = true) :
+    (∀ st, evalStmt n st s = (.err e, s') → FreeSig e st) ∧
+    (∀ b, evalPureStmtBlock n b s = (.err e, s') → BlockFreeSig e b) :=
+  ⟨fun st h => ((sig_lexical n).1 st).out s e s' h he, fun b h => ((sig_lexical n).2 b).out s e s' h he⟩
+
+/-- `如果 真：｛ 结束循环 ｝` ends with the break signal — and contains the 结束循环 -/
+example : FreeSig .sigBreak (.branch 0 cTrue (some [.break 0, .nil]) [] false none) :=
+  (loop_signal_is_lexical 6 vm0 _ .sigBreak rfl).1 _ (run_err (evalStmt 6 _) _ .sigBreak K)
+
+/-- `break_in_callee_does_not_end_callers_loop`.  A loop (每当 / 遍历) leaves through its `结束循环` branch, or skips to
+the next pass through its `继续循环` branch, only when its body ends with that signal (`whileStep` / `iterPass`, see
+`break_innermost_only_while`, `continue_innermost_only_while`, …).  This theorem says when that can happen:
+(1) only if the 结束循环 / 继续循环 stands lexically in the body of *this* loop, outside its inner loops;
+(2) in particular never because of a statement that is an expression — a call `（f：…）`, a method call, 新建, an
+assignment, … — whatever the callee does (a 结束循环 there is an exception *of the callee*,
+`loop_signal_never_leaves_body`): the outcome of such a statement is not a loop signal, and a body made of such
+statements, declarations, 输出 and loops only never takes the loop's signal branches. -/
+theorem break_in_callee_does_not_end_callers_loop (n : Nat) (body : Option (List Stmt)) (s s' : VM ν) (e : Err)
+    (he : Err.isLoopSignal e = true) :
+    (evalPureStmtBlock n body s = (.err e, s') → BlockFreeSig e body) ∧
+    (∀ ex : Expr, evalStmt n (.expr ex) s ≠ (.err e, s')) ∧
+    (∀ stmts, body = some stmts → (∀ st ∈ stmts, ¬ FreeSig e st) → evalPureStmtBlock n body s ≠ (.err e, s')) := by
+  refine ⟨(loop_signal_is_lexical n s s' e he).2 body, fun ex h => ?_, fun stmts hb hno h => ?_⟩
+  · have := (loop_signal_is_lexical n s s' e he).1 _ h
+    cases this
+  · obtain ⟨stmts', st, hb', hm, hf⟩ := (loop_signal_is_lexical n s s' e he).2 body h
+    rw [hb] at hb'; cases hb'
+    exact hno st hm hf
+
+/-- a statement that is a call is never a free signal, nor is a loop, a 输出, a declaration … — only 结束循环 /
+继续循环 themselves and 如果 statements containing them are -/
+theorem call_is_not_a_free_signal (e : Err) (ex : Expr) : ¬ FreeSig e (.expr ex) := by
+  intro h; cases h
+
+/-- the caller's loop `每当 真：｛ （f） ｝` where `f`'s body is `结束循环`: the call ends with the callee's exception
+(cell 9), the pass of the caller's loop with that error — the loop's 结束循环 branch is not taken -/
+example : ∃ s', evalPureStmtBlock 9 (some [callF, .nil]) withF = (.err (.excErr 9), s') ∧
+    ¬ BlockFreeSig .sigBreak (some [callF, .nil]) := by
+  refine ⟨_, run_err (evalPureStmtBlock 9 _) _ _ K, ?_⟩
+  rintro ⟨stmts, st, hb, hm, hf⟩
+  cases hb
+  simp at hm
+  rcases hm with rfl | rfl <;> cases hf
+
+/-- spec twin: the outcome of a body in the spec semantics (`Spec.callBody`) is never `.brk` / `.cont` — a 结束循环 /
+继续循环 outside any loop of the body, or in its handler block, is an exception of that body. -/
+theorem spec_loop_signal_never_leaves_body (n : Nat) (blk : Option ExecBlock) (args : List (Spec.SVal ν))
+    (this : Option (Spec.SVal ν)) (s s' : Spec.SState ν) :
+    Spec.callBody n blk args this s ≠ (.brk, s') ∧ Spec.callBody n blk args this s ≠ (.cont, s') := by
+  constructor <;> intro h <;> have := SNoSig.callBody n blk args this s _ s' h <;> cases this
+
+/-- a body that is just 结束循环 raises the exception 收到「结束」中断信号 -/
+example : ∃ s', Spec.callBody 5 (some (.mk [] (some [.break 0, .nil]) [])) [] none sp0 =
+    (.raise (.exc "收到「结束」中断信号"), s') := ⟨_, rfl⟩
 
 end ZnVerif.Properties.C02
